@@ -132,6 +132,15 @@ func mutate(tag string, base []byte, everyByte, pairs bool, emit func(input)) {
 					rebuild := func(repl []string) string {
 						return m[1] + m[2] + m[3] + "{" + strings.Join(repl, ",") + " }\n"
 					}
+					if fi == 0 {
+						// a field that belongs to another mapping type is left behind / added (typical after changing `type`)
+						for _, extra := range []string{`note_negative = 62`, `cc_negative = 3`, `action_negative = "octave_down"`, `note = 5`, `cc = 1`, `action = "panic"`,
+							`channel_offset_negative = 1`, `flip_axis = true`, `deadzone_at_center = true`, `channel_offset = 2`} {
+							r := append(append([]string{}, fs...), " "+extra)
+							mut := append(append(append([]string{}, ls[:i]...), rebuild(r)), ls[i+1:]...)
+							emit(input{fmt.Sprintf("%s:line-%d-extra-field-%s", tag, i+1, strings.Fields(extra)[0]), join(mut)})
+						}
+					}
 					drop := append(append([]string{}, fs[:fi]...), fs[fi+1:]...)
 					mut := append(append(append([]string{}, ls[:i]...), rebuild(drop)), ls[i+1:]...)
 					emit(input{fmt.Sprintf("%s:line-%d-drop-field-%s", tag, i+1, strings.TrimSpace(kv[0])), join(mut)})
